@@ -74,6 +74,22 @@ def gen_cases(rng, tier, info):
         h.delete("Big", cond=("bin", "eq", ("col", "K"), ("lit", 2)))
         h.obs(); h.reopen(); h.obs()
         cases.append(Case("boundary-%d" % j, h.cmds))
+    # the empty string through every write path (insert, update of a plain / shared / key cell) and every close mode:
+    # the format has no empty string, it must come back as the null it is stored as, and the file must stay readable
+    for j, mode in enumerate(["flush", "into_inner", "drop"]):
+        h = G.History(rng, j)
+        h.add_table("E", [mk("K", "i16", pk=True), mk("V", ("str", 0), null=True), mk("W", ("str", 8), null=True)])
+        h.insert("E", rows=[[1, "a", "x"], [2, "a", ""], [3, "", "x"], [4, "b", "y"]])
+        h.obs(); h.reopen(mode); h.obs()
+        h.update("E", ups=[("V", "")], cond=("bin", "eq", ("col", "K"), ("lit", 1)))
+        h.obs(); h.reopen(mode); h.obs()
+        h.update("E", ups=[("W", ""), ("V", "")], cond=None)
+        h.obs(); h.reopen(mode); h.obs()
+        h.add_table("S", [mk("A", ("str", 4), pk=True, null=True), mk("B", "i16", null=True)])
+        h.insert("S", rows=[["k", 1], ["", 2]])
+        h.update("S", ups=[("A", "")], cond=("bin", "eq", ("col", "B"), ("lit", 1)))
+        h.obs(); h.reopen(mode); h.obs()
+        cases.append(Case("empty-%d" % j, h.cmds))
     if tier == "thorough":
         for j in range(30):
             h = G.History(rng, j % 3)
